@@ -567,24 +567,19 @@ def sellOffV1 (i : SellOffIn) : Option SellOffOut :=
 
 /-! ## generation 1: borrow liquidation end to end (`LiquidateBorrows` sweep, `MsgLiquidateBorrow`)
 
-liquidate_borrow.go:33-158 (sweep body inside `ApplyFuncIfNoError`), msg_server.go:92-199 (message), `CreateLockedBorrow`,
+liquidate_borrow.go:33-158 (sweep body inside `ApplyFuncIfNoError`), msg_server.go:92-204 (message, as repaired by f18ae51), `CreateLockedBorrow`,
 `UpdateLockedBorrows` (the sell-off above), `x/auction LendDutchActivator` / `StartLendDutchAuction` (dutch_lend.go:18-133).
 Generation 1 has NO whitelisting for borrows; the only guard is the kill switch of the lend position's app. -/
 
-/-- the threshold generation-1 `MsgLiquidateBorrow` compares with (msg_server.go:153,170,185): ALWAYS
-`LiquidationThreshold` — the pair's e-mode is ignored, where the sweep (liquidate_borrow.go:82-85) and generation 2 use
-`ELiquidationThreshold` for an e-mode pair -/
-def borrowThresholdMsgV1 (b : Borrow) : Dec :=
+/-- PRE-FIX behaviour, kept only for `C09.v1_msg_borrow_ignored_emode_before_fix_counterexample`: the threshold generation-1
+`MsgLiquidateBorrow` compared with until fix f18ae51 (finding D38): ALWAYS `LiquidationThreshold` — the pair's e-mode was
+ignored, where the sweep (liquidate_borrow.go:82-85) and generation 2 use `ELiquidationThreshold` for an e-mode pair.
+Since the fix the message computes `liquidationThreshold` exactly like the sweep (msg_server.go:144-148) = `borrowThreshold`. -/
+def borrowThresholdMsgV1BeforeFix (b : Borrow) : Dec :=
   match b.bridge with
   | .same => b.lt
   | .first => Dec.mul b.lt b.ltFirst
   | .second => Dec.mul b.lt b.ltSecond
-
-/-- the test of generation-1 `MsgLiquidateBorrow`: the e-mode of the pair is ignored -/
-def borrowUnsafeMsgV1 (e : Env) (b : Borrow) : Bool :=
-  match borrowRatio e b with
-  | some r => decide (r > borrowThresholdMsgV1 b)
-  | none => false
 
 /-- inputs of the sell-off for borrow `b` (liquidate_borrow.go:219-264): `c` = `Ltv` (× transit asset's `Ltv`), penalty =
 `ELiquidationPenalty` in e-mode -/
@@ -639,20 +634,34 @@ def seizeBorrowV1 (e : Env) (sweep : Bool) (b : Borrow) (r : Dec) (w : World) : 
         totalBorrowed := if sweep then w.totalBorrowed.add (statKey b.outPool b.assetOut) (- b.principal) else w.totalBorrowed }
 
 /-- one generation-1 borrow step. `sweep = true`: the wrapped body of `LiquidateBorrows` (a missing or flagged borrow is a
-successful no-op, the threshold is e-mode aware); `sweep = false`: `MsgLiquidateBorrow` (missing / flagged = error, the
-threshold ignores e-mode, and for a cross-pool borrow the error of the ratio computation is discarded: the ratio reads 0). -/
+successful no-op); `sweep = false`: `MsgLiquidateBorrow` (missing / flagged = error, and for a cross-pool borrow the error of the
+ratio computation is discarded: the ratio reads 0). BOTH judge against `borrowThreshold` (e-mode aware, three bridge cases) —
+the message since fix f18ae51. -/
 def liquidateBorrowV1 (e : Env) (sweep : Bool) (id : Nat) (w : World) : Option World :=
   match w.borrows.find? (·.id == id) with
   | none => if sweep then some w else none
   | some b =>
     if b.liquidated then (if sweep then some w else none) else
     if (e.app b.app).kill then none else
-    let thr := if sweep then borrowThreshold b else borrowThresholdMsgV1 b
     match e.valueOf b.assetIn b.amountIn, e.valueOf b.assetOut b.debt with
     | some tin, some tout =>
       if tin = 0 then none else
-      if Dec.quo tout tin > thr then seizeBorrowV1 e sweep b (Dec.quo tout tin) w else some w
+      if Dec.quo tout tin > borrowThreshold b then seizeBorrowV1 e sweep b (Dec.quo tout tin) w else some w
     | _, _ => if !sweep && b.bridgedAmount != 0 then some w else none
+
+/-- PRE-FIX `MsgLiquidateBorrow` (before f18ae51), kept only for the counterexample theorem: identical to
+`liquidateBorrowV1 e false` except for the threshold -/
+def msgLiquidateBorrowV1BeforeFix (e : Env) (id : Nat) (w : World) : Option World :=
+  match w.borrows.find? (·.id == id) with
+  | none => none
+  | some b =>
+    if b.liquidated then none else
+    if (e.app b.app).kill then none else
+    match e.valueOf b.assetIn b.amountIn, e.valueOf b.assetOut b.debt with
+    | some tin, some tout =>
+      if tin = 0 then none else
+      if Dec.quo tout tin > borrowThresholdMsgV1BeforeFix b then seizeBorrowV1 e false b (Dec.quo tout tin) w else some w
+    | _, _ => if b.bridgedAmount != 0 then some w else none
 
 /-- generation-1 borrow pass: offset under `lendtypes.AppID` in the VAULT sweep's key space (defect 4 of the notes), every
 borrow of the range in its own `ApplyFuncIfNoError` -/
